@@ -103,8 +103,9 @@ def resolve_locals(body):
         for m in re.finditer(r"^[ \t]*(?:" + TY + r")?(\w+)[ \t]*=[ \t]*([^;{}=\n]+);", out, re.M):
             name, expr = m.group(1), m.group(2).strip()
             is_strlen = re.fullmatch(r"strlen\s*\(\s*\w+\s*\)", expr) is not None
+            is_len = "strlen" in expr and re.fullmatch(r"(?:strlen\s*\(\s*\w+\s*\)|[\d\s+\-()])+", expr) is not None
             is_field = re.fullmatch(r"[\w\s>+\-.()]+", expr) is not None and "->" in expr and not re.search(r"\b\w+\s*\(", expr)
-            if not (is_strlen or is_field):
+            if not (is_strlen or is_field or is_len):
                 continue
             if len(re.findall(r"\b%s\b\s*(?:=(?!=)|\+\+|--|\+=|-=)" % re.escape(name), out)) != 1 or re.search(r"&\s*%s\b" % re.escape(name), out):
                 continue
@@ -187,6 +188,91 @@ def write_sidecars(run, area, js, tsv):
 
 
 # ------------------------------------------------------------------------------------ expand / cmdline
+def _if_else(body, start):
+    """body[start:] begins with 'if': returns (cond, then_block, else_block or None, end)"""
+    i = body.index("(", start)
+    d, j = 0, i
+    while True:
+        d += body[j] == "("; d -= body[j] == ")"
+        if d == 0:
+            break
+        j += 1
+    cond = body[i + 1:j]
+
+    def block(k):
+        while body[k].isspace():
+            k += 1
+        if body[k] == "{":
+            d, e = 0, k
+            while True:
+                d += body[e] == "{"; d -= body[e] == "}"
+                if d == 0:
+                    return body[k + 1:e], e + 1
+                e += 1
+        e = body.index(";", k)
+        return body[k:e + 1], e + 1
+    th, e = block(j + 1)
+    m = re.match(r"\s*else\b", body[e:])
+    if m:
+        el, e2 = block(e + m.end())
+        return cond, th, el, e2
+    return cond, th, None, e
+
+
+def file_path_var(fil):
+    """fileoutput.c: the name passed to open()/fopen() when it is (an alias of) a char array of PATH_MAX bytes that
+    snoopy_message_generateFromFormat fills with that array's own size passed twice; else None.  Names are free."""
+    m = re.search(r"snoopy_message_generateFromFormat\s*\(\s*(\w+)\s*,\s*PATH_MAX\s*,\s*PATH_MAX\s*,", fil)
+    if not m:
+        return None
+    y = m.group(1)
+    names = {y}
+    if not re.search(r"\bchar\s+%s\s*\[\s*PATH_MAX\s*\]" % re.escape(y), fil):
+        a = re.search(r"\bchar\s*\*\s*(?:const\s+)?%s\s*=\s*(\w+)\s*;" % re.escape(y), fil)
+        if not (a and re.search(r"\bchar\s+%s\s*\[\s*PATH_MAX\s*\]" % re.escape(a.group(1)), fil)):
+            return None
+        if len(re.findall(r"\b%s\s*=(?!=)" % re.escape(y), fil)) != 1:
+            return None
+        names.add(a.group(1))
+    else:
+        for a in re.finditer(r"\bchar\s*\*\s*(?:const\s+)?(\w+)\s*=\s*%s\s*;" % re.escape(y), fil):
+            if len(re.findall(r"\b%s\s*=(?!=)" % re.escape(a.group(1)), fil)) == 1:
+                names.add(a.group(1))
+    o = re.search(r"\bf?open\s*\(\s*(\w+)\s*,", fil)
+    return o.group(1) if o and o.group(1) in names else None
+
+
+def read_cmdline(cb, run):
+    """cmdline.c: the text printed when the path is missing too (read from the branch taken when ...->filename is NULL, either polarity of the test),
+    and the separator printed before every non-first argument (the only literal other than "%s" printed at a running offset)"""
+    unknown = sep = None
+    PRN = r"snprintf\s*\(\s*resultBuf\s*,\s*resultBufSize\s*,\s*" + STR + r"\s*(?:,\s*([^;]*?))?\)\s*;"
+    for m in re.finditer(r"\bif\s*\(", cb):
+        try:
+            cond, th, el, _ = _if_else(cb, m.start())
+        except ValueError:
+            continue
+        c = re.sub(r"\s+", "", cond)
+        mm = re.fullmatch(r"\(?(?:NULL(==|!=)(\w+->filename)|(\w+->filename)(==|!=)NULL|(!?)(\w+->filename))\)?", c)
+        if not mm or el is None:
+            continue
+        null_first = (mm.group(1) or mm.group(4) or ("==" if mm.group(5) == "!" else "!=")) == "=="
+        nb, fb = (th, el) if null_first else (el, th)
+        a, b = re.search(r"return\s+" + PRN, nb), re.search(r"return\s+" + PRN, fb)
+        if a and b and a.group(2) is None and c_unescape(b.group(1)) == b"%s" and re.fullmatch(r"\w+->filename", (b.group(2) or "").strip()):
+            unknown = c_unescape(a.group(1))
+    offs = re.findall(r"snprintf\s*\(\s*resultBuf\s*\+\s*\w+\s*,[^;]*?,\s*" + STR + r"\s*(?:,[^;]*)?\)\s*;", cb)
+    offs = [c_unescape(x) for x in offs]
+    seps = [x for x in offs if x != b"%s"]
+    if len(offs) == 2 and len(seps) == 1:
+        sep = seps[0]
+    if unknown is None:
+        run.notes.append("translator: cmdline.c: the both-missing fallback (if filename is NULL: fixed text, else the path) not recognised")
+    if sep is None:
+        run.notes.append("translator: cmdline.c: separator / argument snprintf pair at the running offset not recognised")
+    return unknown, sep
+
+
 def tr_expand(run):
     msg = strip_comments(run.src("src/message.c"))
     body = func_body(msg, "snoopy_message_generateFromFormat") or ""
@@ -223,7 +309,7 @@ def tr_expand(run):
         run.notes.append("translator: devlogoutput.c ident template call not recognised")
         v["ident_buf"] = None
     fil = strip_comments(run.src("src/output/fileoutput.c"))
-    if not (re.search(r"filePathBuf\s*\[\s*PATH_MAX\s*\]", fil) and re.search(r"snoopy_message_generateFromFormat\s*\(\s*filePath\s*,\s*PATH_MAX\s*,\s*PATH_MAX\s*,", fil)):
+    if file_path_var(fil) is None:
         run.notes.append("translator: fileoutput.c path template call not recognised")
         v["path_buf"] = None
     order = ["tag_open", "tag_close", "tag_colon", "e_close", "e_nf1", "e_nf2", "e_f1", "e_f2", "e_f3", "ds_buf_adj", "append_strict",
@@ -243,11 +329,7 @@ def tr_expand(run):
     w["failure_text"] = c_unescape(m.group(1)) if m else None
     cmd = strip_comments(run.src("src/datasource/cmdline.c"))
     cb = func_body(cmd, "snoopy_datasource_cmdline") or ""
-    lits = re.findall(r"snprintf\s*\(\s*resultBuf[^;]*?,\s*" + STR + r"\s*(?:,[^;]*)?\)\s*;", cb)
-    lits = [c_unescape(x) for x in lits]
-    # expected: "(unknown)", "%s", " ", "%s"
-    w["cmdline_unknown"] = lits[0] if len(lits) == 4 and lits[1] == b"%s" and lits[3] == b"%s" else None
-    w["cmdline_sep"] = lits[2] if len(lits) == 4 else None
+    w["cmdline_unknown"], w["cmdline_sep"] = read_cmdline(cb, run)
     order2 = ["sep", "unknown"]
     v2 = {"sep": w["cmdline_sep"], "unknown": w["cmdline_unknown"]}
     js2, tsv2 = emit(run, "cmdline", "Cmdline", "cmdline_consts", "From Snoopy Require Import Lib.CStr Datasource.Cmdline.", v2, order2, {"sep": b"", "unknown": b""})
